@@ -730,8 +730,9 @@ def combinatorDecl (r6 : List Token) (outer : Pos) (builtin isFunction : Bool) :
 def Combinator.withTag (td : Combinator) : Combinator :=
   if td.construct.explicit then td else { td with construct := { td.construct with id := td.genCrc32 } }
 
-/-- `parseCombinator` -/
-def parseCombinator (text : Bytes) (commentStart ts : List Token) (isFunction allowBuiltin : Bool) : Res Combinator :=
+/-- `parseCombinator` up to and including the terminating `;`: the combinator without its computed tag and
+right comment -/
+def parseCombinatorPre (text : Bytes) (commentStart ts : List Token) (isFunction allowBuiltin : Bool) : Res Combinator :=
   match skipWS ts with     -- td.PR = rest.skipWS(Position{})
   | none => .panic
   | some (t0, r0) =>
@@ -776,11 +777,21 @@ def parseCombinator (text : Bytes) (commentStart ts : List Token) (isFunction al
                       { builtin := builtin, isFunction := isFunction, mods := mods, construct := construct,
                         targs := targs, fields := fields, typeDecl := typeDecl, funcDecl := funcDecl,
                         cb := cb, cr := [] }
-                    match skipToNewline r8 with
-                    | (nl, r9) =>
-                      match (if nl then parseCommentRight text r8 r9 else some []) with
-                      | none => .panic
-                      | some cr => if !needFront r9 then .panic else .ok { td.withTag with cr := cr } r9
+                    .ok td r8
+
+/-- `parseCombinator`: after the `;`, the tag (`td.Construct.ID = td.crc32()` unless explicit), the comment
+to the right, `td.PR.End = rest.front().pos` -/
+def parseCombinator (text : Bytes) (commentStart ts : List Token) (isFunction allowBuiltin : Bool) : Res Combinator :=
+  match parseCombinatorPre text commentStart ts isFunction allowBuiltin with
+  | .panic => .panic
+  | .diverge => .diverge
+  | .err e => .err e
+  | .ok td r8 =>
+    match skipToNewline r8 with
+    | (nl, r9) =>
+      match (if nl then parseCommentRight text r8 r9 else some []) with
+      | none => .panic
+      | some cr => if !needFront r9 then .panic else .ok { td.withTag with cr := cr } r9
 
 inductive FileRes where
   | ok (tl : TL)
